@@ -58,6 +58,9 @@ def gen(rng, tier, quarantine=()):
             ops.append(op)
     if rng.random() < 0.3:
         ops.append({"op": "exit", "id": f"p{nprobes - 1}"})
+        if rng.random() < 0.5:
+            # deactivating the finished probe once more must not disturb the one still active
+            ops.append({"op": "exit", "id": f"p{nprobes - 1}", "again": True})
         op = call_shape(rng, qual, fnir, "k1")
         op["tape"] = gen_tape(rng, 8)
         ops.append(op)
